@@ -247,6 +247,16 @@ func (w *World) oracleOnCloudAssign(node, ip string) {
 }
 
 func (w *World) oracleOnCloudUnassign(node, ip string) {
+	if w.armed("C10") {
+		// "every IP of a bound live pod is assigned to that pod's node" is an invariant, not only a condition at bind
+		for _, p := range w.livePodsWithIP(ip) {
+			if w.inNewestConf(ip) && p.Node == node {
+				w.fail("C10.live-pod-ip-unassigned", w.c04Key("live-pod-ip-unassigned", p.Key, 1),
+					"UnAssignIP(%s from %s) while live pod %s (uid %s) bound to that node holds it", ip, node, p.key(), p.UID)
+				return
+			}
+		}
+	}
 	if w.armed("C04") {
 		for _, p := range w.livePodsWithIP(ip) {
 			if w.inNewestConf(ip) {
